@@ -2,8 +2,9 @@
 //
 // Explicit-state BFS (lib/seqx) over a real StorageEngine with 2 (thorough: also 3) real shards.
 // Universe: one regular object O (two alternative versions with the same ID: without expiration, or
-// expiring at epoch 0, i.e. before its lock), a LOCK object L -> O expiring at epoch 1 (thorough: a
-// second lock L2 expiring at epoch 0), a TOMBSTONE object T -> O.
+// expiring at epoch 0, i.e. before its lock), a LOCK object L -> O expiring at epoch 1, a second lock
+// L2 -> O with the smaller object ID expiring at epoch 0 (quick: put by macros only), a TOMBSTONE
+// object T -> O.
 //
 // Alphabet: engine Put of O / of L / of T (the lock and tombstone broadcasts with every visiting
 // order of the shard map as separate letters), SetShardMode per shard, failing the next blob put of
@@ -50,7 +51,7 @@ import (
 
 const (
 	lockExp  = 1 // expiration epoch of L: the lock is live in epochs 0 and 1
-	lock2Exp = 0 // expiration epoch of L2 (thorough)
+	lock2Exp = 0 // expiration epoch of L2 (smaller ID than L; quick: macros only)
 	objExp   = 0 // expiration epoch of the expiring version of O (< lockExp)
 	tombExp  = 9 // never reached
 	maxEpoch = lockExp + 1
@@ -80,7 +81,7 @@ type op struct {
 	s     int       // shard index
 	m     mode.Mode // opSetMode
 	order []int     // visiting order of the engine's shard map during the op
-	sub   []int     // opMacro: letters it runs
+	sub   []op      // opMacro: letters it runs
 	name  string
 }
 
@@ -142,9 +143,13 @@ func buildUniverse(shards int, thorough bool) *universe {
 	u.o[0] = ew.Build(ew.ObjSpec{Cnr: cnr, ID: idO, Owner: own, Payload: []byte("payload of the locked object"), Type: object.TypeRegular})
 	u.o[1] = ew.Build(ew.ObjSpec{Cnr: cnr, ID: idO, Owner: own, Payload: []byte("payload of the locked object"), Type: object.TypeRegular, Attrs: expAttr(objExp)})
 	u.locks = append(u.locks, lockObj{ew.Build(ew.ObjSpec{Cnr: cnr, ID: ew.OID("c08-L"), Owner: own, Type: object.TypeLock, Associate: idO, Attrs: expAttr(lockExp)}), lockExp})
-	if thorough {
-		u.locks = append(u.locks, lockObj{ew.Build(ew.ObjSpec{Cnr: cnr, ID: ew.OID("c08-L2"), Owner: own, Type: object.TypeLock, Associate: idO, Attrs: expAttr(lock2Exp)}), lock2Exp})
+	// L2 expires before L and has the SMALLER object ID: the metabase meets it first when it walks the
+	// locks of O. Quick tier: L2 is put by macros only (no plain letter).
+	idL2 := ew.OIDWithPrefix("c08-L2", 0x00)
+	if string(idL2[:]) >= string(u.locks[0].obj.GetID().Marshal()) {
+		panic("L2 must sort before L")
 	}
+	u.locks = append(u.locks, lockObj{ew.Build(ew.ObjSpec{Cnr: cnr, ID: idL2, Owner: own, Type: object.TypeLock, Associate: idO, Attrs: expAttr(lock2Exp)}), lock2Exp})
 	u.tomb = ew.Build(ew.ObjSpec{Cnr: cnr, ID: ew.OID("c08-T"), Owner: own, Type: object.TypeTombstone, Associate: idO, Attrs: expAttr(tombExp)})
 	for _, l := range u.locks {
 		u.sys = append(u.sys, l.obj)
@@ -162,9 +167,16 @@ func buildUniverse(shards int, thorough bool) *universe {
 	add(op{kind: opPutO, v: 0, name: "Put(O)"})
 	add(op{kind: opPutO, v: 1, name: "Put(O:expires@0)"})
 	lnames := []string{"L", "L2"}
+	hidden := map[string]op{} // letters that only macros use
 	for li := range u.locks {
 		for _, p := range perms {
-			add(op{kind: opPutL, v: li, order: p, name: "Put(" + lnames[li] + ")/" + permName(p)})
+			o := op{kind: opPutL, v: li, order: p, name: "Put(" + lnames[li] + ")/" + permName(p)}
+			if li == 0 || thorough {
+				add(o)
+			} else {
+				o.name = u.prefix + o.name
+				hidden[o.name] = o
+			}
 		}
 	}
 	for _, p := range perms {
@@ -217,22 +229,26 @@ func buildUniverse(shards int, thorough bool) *universe {
 	// macros: scripted prefixes, enabled in the initial state only
 	id := permName(perms[0])
 	macro := func(name string, sub ...string) {
-		var ix []int
+		var ix []op
 		for _, n := range sub {
-			i, ok := u.idx[u.prefix+n]
-			if !ok {
+			if i, ok := u.idx[u.prefix+n]; ok {
+				ix = append(ix, u.ops[i])
+			} else if h, ok := hidden[u.prefix+n]; ok {
+				ix = append(ix, h)
+			} else {
 				panic("macro: unknown letter " + n)
 			}
-			ix = append(ix, i)
 		}
 		add(op{kind: opMacro, sub: ix, name: "MACRO[" + name + ": " + strings.Join(sub, "; ") + "]"})
 	}
 	for _, pv := range []string{"Put(O)", "Put(O:expires@0)"} {
 		macro("lock on every shard", pv, "Put(L)/"+id)
 		macro("holder read-only during the lock broadcast", pv, "SetMode(0,RO)", "Put(L)/"+id, "SetMode(0,RW)")
-		macro("lock put fails on the holder", pv, "FailNextPut(0)", "Put(L)/"+id)
 	}
-	macro("lock on every shard, epoch 1", "Put(O)", "Put(L)/"+id, "Epoch+1")
+	macro("lock put fails on the holder", "Put(O)", "FailNextPut(0)", "Put(L)/"+id)
+	// the object is protected by the later lock L while the earlier lock L2 (smaller ID) has expired
+	macro("two locks on every shard, epoch 1: the earlier one has expired", "Put(O)", "Put(L2)/"+id, "Put(L)/"+id, "Epoch+1")
+	macro("two locks on every shard, epoch 1: the earlier one and the object have expired", "Put(O:expires@0)", "Put(L2)/"+id, "Put(L)/"+id, "Epoch+1")
 	macro("lock arrives before the object while the future holder is read-only, then is put again", "SetMode(0,RO)", "Put(L)/"+id, "SetMode(0,RW)", "Put(O)", "Put(L)/"+id)
 	macro("locked object evacuated from its shard", "Put(O)", "Put(L)/"+id, "SetMode(0,RO)", "Evacuate(0)")
 	if len(u.ops) > 255 {
@@ -356,7 +372,7 @@ func (s *sys) Apply(i int) (string, bool) {
 		s.hist = append(s.hist, o.name)
 		var rs []string
 		for _, j := range o.sub {
-			if res, ok := s.applyOne(j); ok {
+			if res, ok := s.applyOp(j); ok {
 				rs = append(rs, res)
 			} else {
 				rs = append(rs, "disabled")
@@ -367,7 +383,7 @@ func (s *sys) Apply(i int) (string, bool) {
 	fp0, what0 := s.fp, s.what
 	s.fp, s.what = "", ""
 	s.hist = append(s.hist, o.name)
-	res, ok := s.applyOne(i)
+	res, ok := s.applyOp(o)
 	if !ok {
 		s.fp, s.what = fp0, what0
 		s.hist = s.hist[:len(s.hist)-1]
@@ -377,9 +393,8 @@ func (s *sys) Apply(i int) (string, bool) {
 	return res + "|" + s.obs, true
 }
 
-// applyOne runs one plain letter and the observation round after it.
-func (s *sys) applyOne(i int) (string, bool) {
-	o := s.u.ops[i]
+// applyOp runs one plain letter and the observation round after it.
+func (s *sys) applyOp(o op) (string, bool) {
 	w := s.w
 	ctx := context.Background()
 	var res string
